@@ -245,6 +245,7 @@ func init() {
 	}
 
 	suites["c16"] = func(e *emitter, r *rng, thorough bool) {
+		usedBufferHistories(e, []string{"skip", "valid"}, false) // a Buffer is scratch: what it held before changes nothing
 		dsts := []string{"-", hs([]byte("a")), hs([]byte("ab")), hs([]byte("abcdefg")), hs([]byte("\xff\x00\"\\"))}
 		inputs := []string{`"hello"`, `"a\nb"`, `"é😀"`, `"\ud800"`, `""`, `"unterminated`, `"bad\q"`, `  "ws"`, `"x\\\"y"`, "\"\xff\xfe\"", `"aaaaaaaaaaaaaaaaaaaaaaaaaaaaaaaa"`, `"\t"`, `"é"x`, `null`, `12`}
 		for _, in := range inputs {
